@@ -26,7 +26,7 @@ func init() {
 		Rule: "cases: (lattice) every slice with start,end in [-L-2,L+2] or omitted and step in [-3,3] or omitted, every Nth and every 1-2 member Union with indexes in [-L-2,L+2], on arrays of length L=0..5, as last fragment and followed by a child / index / wildcard fragment; " +
 			"(random) paths of 1-6 fragments over unique-leaf trees with every fragment kind (root, current, child, index, wildcard, descent, union, slice, filter incl. nested filters) in every position. " +
 			"Get's results are matched to J's located results (unique leaves) and checked as a multiset and against J's partial order (array traversal, union listing). " +
-			"also slice bounds and steps, indexes and union members at and near the int limits, and nested filters whose own operand is rooted at the document. non-trivial: J selects at least one element or the path has a slice/filter/union/descent fragment; distinct: lattice points by construction, random cases by digest of (path, data)",
+			"also slice bounds and steps, indexes and union members at and near the int limits, and nested filters whose own operand is rooted at the document. every case is also evaluated on the same data held as gen nodes (the multiset of selected values must agree). non-trivial: J selects at least one element or the path has a slice/filter/union/descent fragment; distinct: lattice points by construction, random cases by digest of (path, data)",
 		Assumptions: []string{
 			"slice arithmetic where the statement is silent is taken from ojg's own unit tests (DESIGN 4.3): step 0 selects nothing, start >= length selects nothing, results follow the walk direction",
 			"order is constrained only between results whose locations first differ at an element taken from an array (or a union member) by the same fragment; map iteration order and ancestor/descendant order under a descent are unconstrained",
